@@ -120,6 +120,7 @@ static void do_instantiate(int c, int parent, int mode = 0, int envsel = -1) {
         else { if (g_hook_last_arg != expect_arg) V("C06/start/ran-before-segments:" + cfg(), "the start function saw memory[" + std::to_string(D_HOOK_ADDR) + "] = " + std::to_string(g_hook_last_arg) + ", data segments put " + std::to_string(expect_arg) + " there"); if (g_hook_last_inst != inst) V("C06/start/host-import-did-not-receive-instance", ""); }
         if (600 < mm.b.size()) mm.b[600] = 0xAB;
     } else if (g_hook_calls != hooks_before) V("C06/start/host-call-without-start", "");
+    if (g_unknown_lookups) { V("C06/imports/resolver-asked-for-a-name-the-module-does-not-import", std::string("imports are ") + D_IMPORT_NAMES); g_unknown_lookups = 0; }
     m.up = true;
     log_event("instantiate", (uint64_t)c);
 }
